@@ -7,6 +7,7 @@ open Scrapli Scrapli.SSHConfig Scrapli.Gen.SSHConfig
   line protocol (all strings UTF-8 hex, "-" = empty string):
     L <name> <entries>        entries: "." | e;e;...   e = hosts/hostname/attr,attr,...   (Val: n | s<hex> | i<dec>)
       -> ok <hosts> <hostname> <attr,attr,...>   |  err <kind>
+    D <name> <entries>        -> anchored=<0|1> nocross=<0|1> crossnaming=<0|1> (hypotheses of lookup_only_matching_partial[_wide])
     S <name> <entries>        the hand-written SPECIFICATION (Spec.lookup) on the same input -> same reply format
     HL <n1,n2,..> <entries>   a HISTORY of lookups on one SSHConfig object (cfgHistory) -> replies joined by " | "
     HK <n1,n2,..> <lines> <hm4>  history on one SSHKnownHosts object (khHistory); hm4: salt/hash/name/(t|f|x);...
@@ -112,6 +113,13 @@ def handleLine (line : String) : String :=
         | none => some false
       " | ".intercalate ((khHistory hmf (khBuild lines) names).2.map showKH)
     | _, _, _ => "bad-op"
+  | ["D", name, entries] =>
+    -- is the case inside the domain of lookup_only_matching_partial?  (anchoredB / noCrossB are proved ⇔ the predicates)
+    match decStr name, decList decEntry entries with
+    | some name, some parsed =>
+      let ks := starKey :: parsed.map (·.hosts)
+      s!"anchored={if Spec.anchoredB ks name then 1 else 0} nocross={if Spec.noCrossB ks then 1 else 0} crossnaming={if Spec.crossNamingB ks name then 1 else 0}"
+    | _, _ => "bad-op"
   | ["S", name, entries] =>
     match decStr name, decList decEntry entries with
     | some name, some parsed =>
